@@ -35,6 +35,7 @@ Their tolerances scale with the conditioning of the data (``_tol``).
 """
 import itertools
 import math
+import re
 
 from fractions import Fraction
 
@@ -139,6 +140,167 @@ def _wrap(kind, v):
     return x, seen
 
 
+# ------------------------------------------------------------------------------------------
+# round-4 families: the caller re-uses its containers
+# ------------------------------------------------------------------------------------------
+# The caller keeps ONE container per role and shape, refills it in place for every observation and passes the same
+# object (or a view of one of its rows) again.  A detector that keeps a live reference to what it was handed (a dropped
+# copy in the shared validation, ``astype(copy=False)``, ``to_numpy(copy=False)``, the validated row appended to a
+# history list ...) then evaluates its tests on whatever the caller's memory holds NOW.  The oracle is the unchanged
+# one: the model sees the numbers, never the objects.
+#   feed name -> (roles cycled with the position, scrub)
+#   roles: c2 / c1        one (1,1) / (1,) ndarray, passed whole
+#          ring2/R        an (R,1) ndarray used as a ring; the row written last is passed as the view buf[i:i+1]
+#          ring1/R        an (R,) ndarray used as a ring; the element written last is passed as the view buf[i:i+1]
+#          ring2/Rw       the same, and every time the ring wraps the caller first clears the whole buffer (NaN) - a chunk
+#                         loader that reads the next chunk into the same memory
+#          ser / df       a one-element Series / one-cell DataFrame (labelled column, row label 7), ``.iloc`` refill
+#          l1             a one-element python list, refilled in place
+#          ...f32 / i64   the ndarray roles with a float32 / int64 buffer
+#   scrub "nan": right after update() returns - before the caller reads drift_state / to_dataframe() - the caller
+#          overwrites every container it owns with NaN (it uses its scratch memory for something else in between)
+REUSE = {
+    "r-c2": (["c2"], None),
+    "r-c1": (["c1"], None),
+    "r-ring2/2": (["ring2/2"], None),
+    "r-ring2/3": (["ring2/3"], None),
+    "r-ring1/2": (["ring1/2"], None),
+    "r-ring1/3": (["ring1/3"], None),
+    "r-ring2/7": (["ring2/7"], None),
+    "r-chunk50": (["ring2/50w"], None),
+    "r-ser": (["ser"], None),
+    "r-df": (["df"], None),
+    "r-c2f32": (["c2f32"], None),
+    "r-c1f32": (["c1f32"], None),
+    "r-c2i64": (["c2i64"], None),
+    "r-ring1/2i64": (["ring1/2i64"], None),
+    "r-mix": (["c2", "ring2/2", "c1", "ser", "l1", "df", "ring1/3"], None),  # every role keeps its own container
+    "r-c2+nan": (["c2"], "nan"),
+    "r-c1+nan": (["c1"], "nan"),
+    "r-ring2/3+nan": (["ring2/3"], "nan"),
+    "r-ser+nan": (["ser"], "nan"),
+}
+F32_FEEDS = ("f32", "r-c2f32", "r-c1f32")
+_ROLE = re.compile(r"(c2|c1|ring2|ring1|ser|df|l1)(?:/(\d+)(w)?)?(f32|i64)?")
+
+
+def _addr(obj):
+    """address of the memory a container keeps its numbers in (None for a list)"""
+    if isinstance(obj, np.ndarray):
+        return obj.__array_interface__["data"][0]
+    if isinstance(obj, (pd.Series, pd.DataFrame)):
+        return obj.to_numpy(copy=False).__array_interface__["data"][0]
+    return None
+
+
+class _Rig:
+    """The detector together with the containers its caller re-uses and the log of the calls made so far.
+
+    A deepcopy snapshot would cut exactly the aliasing these families are about (a numpy view becomes an owner when
+    copied), so a snapshot of a rig is *rebuilt*: a fresh detector and fresh containers are taken through the logged
+    calls again (refill, update(), scrub - nothing else).  Every explored state is therefore the state a from-scratch
+    execution of its history reaches, snapshots or not.
+    """
+
+    def __init__(self, cls, params, feed):
+        self.cls = cls
+        self.params = params
+        self.feed = feed
+        self.det = cls(**params)
+        self.bufs = {}
+        self.used = {}
+        self.log = []
+        self.inplace = None  # facts about the last refill (read by the check for its counters)
+
+    def __deepcopy__(self, memo):
+        new = _Rig(self.cls, self.params, self.feed)
+        for pos, v in self.log:
+            new._do(pos, v)
+        new.log = list(self.log)
+        return new
+
+    def role(self, pos):
+        roles = REUSE[self.feed][0]
+        return roles[pos % len(roles)]
+
+    def _fill(self, role, v):
+        """refill the container of ``role`` in place -> (object handed to update(), exact number it stands for)"""
+        shape, r, wipe, dt = _ROLE.fullmatch(role).groups()
+        r = int(r) if r else 1
+        dt = {None: np.float64, "f32": np.float32, "i64": np.int64}[dt]
+        if dt is np.int64:
+            if int(v) != v:
+                raise ValueError("value %r does not fit an integer buffer" % (v,))
+            seen = int(v)
+        else:
+            seen = float(dt(v))
+        k = self.used.get(role, 0)
+        self.used[role] = k + 1
+        buf = self.bufs.get(role)
+        fresh = buf is None
+        if shape == "l1":
+            if fresh:
+                buf = self.bufs[role] = [0.0]
+            buf[0] = float(v)
+            self.inplace = True
+            return buf, seen
+        if shape in ("ser", "df"):
+            if fresh:
+                buf = self.bufs[role] = pd.Series([0.0]) if shape == "ser" else pd.DataFrame({"x": [0.0]}, index=[7])
+            before = _addr(buf)
+            if shape == "ser":
+                buf.iloc[0] = float(v)
+            else:
+                buf.iloc[0, 0] = float(v)
+            self.inplace = _addr(buf) == before
+            return buf, seen
+        if fresh:
+            full = {"c2": (1, 1), "c1": (1,), "ring2": (r, 1), "ring1": (r,)}[shape]
+            buf = self.bufs[role] = np.zeros(full, dtype=dt)
+        self.inplace = True
+        if shape in ("c2", "c1"):
+            buf[...] = v
+            return buf, seen
+        slot = k % r
+        if wipe and slot == 0 and k:
+            buf[...] = np.nan  # the next chunk is read into the same memory
+        buf[slot] = v
+        return buf[slot:slot + 1], seen
+
+    def _do(self, pos, v):
+        x_in, x = self._fill(self.role(pos), v)
+        exc = None
+        try:
+            self.det.update(x_in)
+        except Exception as e:  # judged by the caller of call(); a rebuilt rig goes through the same exception
+            exc = e
+        if REUSE[self.feed][1] == "nan":
+            for b in self.bufs.values():
+                if isinstance(b, list):
+                    b[0] = float("nan")
+                elif isinstance(b, pd.Series):
+                    b.iloc[0] = np.nan
+                elif isinstance(b, pd.DataFrame):
+                    b.iloc[0, 0] = np.nan
+                else:
+                    b[...] = np.nan
+        return x, exc
+
+    def call(self, pos, v):
+        self.log.append((pos, v))
+        return self._do(pos, v)
+
+
+def _reuse_counters(ctx, rig, pos):
+    role = rig.role(pos)
+    ctx.count("reuse_calls")
+    ctx.count("reuse_refilled_in_place:%s" % role if rig.inplace else "reuse_container_reallocated:%s" % role)
+
+
+def _fed_as(feed):
+    return (" [observations fed as %s]" % (REUSE[feed] if feed in REUSE else FEEDS[feed][:6],)) if feed else ""
+
+
 def _tol(alpha, L, feed=None):
     """Tolerances of a family whose data are ALPHABETS[alpha] (S = max|x|), histories of <= L observations.
 
@@ -156,8 +318,8 @@ def _tol(alpha, L, feed=None):
     rounded to 24 bits).  Configurations in exact (dyadic) arithmetic ignore all of this: ties are enforced.
     """
     S = max(abs(float(v)) for v in ALPHABETS[alpha])
-    eps = EPS32 if feed == "f32" else EPS64
-    return {"floor_x": 64 * L * eps * S, "tie": 4 * L * EPS32 if feed == "f32" else 1e-9}
+    eps = EPS32 if feed in F32_FEEDS else EPS64
+    return {"floor_x": 64 * L * eps * S, "tie": 4 * L * EPS32 if feed in F32_FEEDS else 1e-9}
 
 
 def _near(a, b, tol):
@@ -227,16 +389,20 @@ class CusumSystem(System):
         if cfg.get("tol"):
             model.floor_x = cfg["tol"]["floor_x"]
         if cfg.get("fam"):
-            model.bits = 24 if cfg.get("feed") == "f32" else 53
+            model.bits = 24 if cfg.get("feed") in F32_FEEDS else 53
         if cfg.get("unit_log2"):
             model.unit = Fraction(2) ** cfg["unit_log2"]
+        if cfg.get("feed") in REUSE:
+            # the detector lives inside the rig (detector + the caller's containers are snapshotted together)
+            return {"rig": _Rig(CUSUM, p, cfg["feed"]), "model": model}
         return {"det": CUSUM(**p), "model": model}
 
     def alphabet(self, cfg, state, pos):
         return ALPHABETS[cfg.get("alphabet", "base")]
 
     def step(self, cfg, state, ev, pos, ctx):
-        det = state["det"]
+        rig = state.get("rig")
+        det = rig.det if rig else state["det"]
         err = None
         feed = cfg.get("feed")
         tol = cfg.get("tol")
@@ -244,7 +410,9 @@ class CusumSystem(System):
         # "offset" families feed level + symbol: the same tests far away from 0, where a numerically careless
         # re-estimation (one-pass variance, say) loses all its digits; decisions within 1e-6 of the threshold are
         # undecidable there (the float mean / standard deviation of 3e7-sized data carry ~1e-8 relative error)
-        if feed:
+        if rig:
+            x_in = None
+        elif feed:
             kinds = FEEDS[feed]
             x_in, x = _wrap(kinds[pos % len(kinds)], ev)
         else:
@@ -252,7 +420,14 @@ class CusumSystem(System):
         if cfg.get("offset"):
             ctx.count("offset_level_steps")
         try:
-            det.update(x_in)
+            if rig:
+                # the caller refills its container in place, passes it, (scrubs it) - then reads drift_state
+                x, exc = rig.call(pos, ev)
+                _reuse_counters(ctx, rig, pos)
+                if exc is not None:
+                    raise exc
+            else:
+                det.update(x_in)
         except ValueError as e:
             msg = " ".join(str(e).split())
             err = "ValueError" if msg.startswith("Standard deviation is 0") else "ValueError: " + msg[:120]
@@ -300,7 +475,7 @@ class CusumSystem(System):
                     None if model.sd is None else float(model.sd),
                     float(model.hi),
                     float(model.lo),
-                    (" [observations fed as %s]" % FEEDS[feed][:6]) if feed else "",
+                    _fed_as(feed),
                 ),
                 expected=exp,
                 observed=obs,
@@ -373,20 +548,25 @@ class PageHinkleySystem(System):
         if cfg.get("tol"):
             model.floor_x = cfg["tol"]["floor_x"]
         if cfg.get("fam"):
-            model.bits = 24 if cfg.get("feed") == "f32" else 53
+            model.bits = 24 if cfg.get("feed") in F32_FEEDS else 53
+        if cfg.get("feed") in REUSE:
+            return {"rig": _Rig(PageHinkley, p, cfg["feed"]), "model": model, "seen": _Frozen([])}
         return {"det": PageHinkley(**p), "model": model, "seen": _Frozen([])}
 
     def alphabet(self, cfg, state, pos):
         return ALPHABETS[cfg.get("alphabet", "base")]
 
     def step(self, cfg, state, ev, pos, ctx):
-        det = state["det"]
+        rig = state.get("rig")
+        det = rig.det if rig else state["det"]
         err = None
         frame = None
         feed = cfg.get("feed")
         tol = cfg.get("tol")
         fam = cfg.get("fam")
-        if feed:
+        if rig:
+            x_in = None
+        elif feed:
             kinds = FEEDS[feed]
             x_in, x = _wrap(kinds[pos % len(kinds)], ev)
         elif fam:
@@ -394,7 +574,14 @@ class PageHinkleySystem(System):
         else:
             x_in, x = float(ev), ev
         try:
-            det.update(x_in)
+            if rig:
+                # the caller refills its container in place, passes it, (scrubs it) - then reads the frame
+                x, exc = rig.call(pos, ev)
+                _reuse_counters(ctx, rig, pos)
+                if exc is not None:
+                    raise exc
+            else:
+                det.update(x_in)
             df = det.to_dataframe()
             if list(df.columns) != list(PH_COLUMNS):
                 df = df[list(PH_COLUMNS)]
@@ -455,7 +642,7 @@ class PageHinkleySystem(System):
                 "PageHinkley(%s) disagrees with the documented Page-Hinkley test on %s %s at sample %d "
                 "(epoch %d, %d-th sample of the epoch)%s"
                 % (_desc(cfg), bad, cols, pos + 1, model.epoch, model.t,
-                   (" [observations fed as %s]" % FEEDS[feed][:6]) if feed else ""),
+                   _fed_as(feed)),
                 expected=exp,
                 observed=dict(obs, previous_frame=prev[-3:], frame_tail=frame[-4:]),
                 sig="PageHinkley-spec-after-first-alarm" if model.epoch >= 2 else "PageHinkley-spec-first-epoch",
@@ -821,6 +1008,37 @@ X_DFS = [
     ("PageHinkley", "val-p2p27", _H("negative", 0, 0, 2), "p2p27", None, 6, 7),
     ("PageHinkley", "val-lvl8", _H("positive", 1, 0, 2e-08), "lvl8", None, 6, 7),
     ("PageHinkley", "val-lvl8", _H("negative", 1, 0.5, 1e-08), "lvl8", None, 5, 6),
+    # ================= round 4: the caller re-uses its containers (feeds of REUSE) =================
+    # CUSUM keeps the whole stream and (re-)estimates mean / sd from its last burn_in entries: estimated statistics in
+    # every direction, given statistics (the re-estimation after the first alarm), burn_in 2 and 3, rings shorter than
+    # / as long as the burn-in.  On the small integers the arithmetic is exact: ties stay enforced.
+    ("CUSUM", "reuse-cell", E1, "base", "r-c2", 7, 8), ("CUSUM", "reuse-cell", E2, "frac", "r-c1", 6, 7),
+    ("CUSUM", "reuse-cell", E4, "base", "r-c1", 6, 7), ("CUSUM", "reuse-cell", E3, "mix", "r-c2", 6, 7),
+    ("CUSUM", "reuse-cell", _C(2, 0.5, 1, None, 1, 2), "base", "r-c2", 6, 7),
+    ("CUSUM", "reuse-cell", _C(3, 0, 1, "positive", 0, 1), "base", "r-c1", 6, 7),
+    ("CUSUM", "reuse-ring", E2, "base", "r-ring2/2", 7, 8), ("CUSUM", "reuse-ring", E3, "frac", "r-ring1/2", 6, 7),
+    ("CUSUM", "reuse-ring", E4, "base", "r-ring2/3", 6, 7), ("CUSUM", "reuse-ring", E1, "mix", "r-ring1/3", 6, 7),
+    ("CUSUM", "reuse-ring", _C(3, 0.5, 1, "negative", 1, 2), "base", "r-ring2/2", 6, 7),
+    ("CUSUM", "reuse-pd", E1, "frac", "r-ser", 6, 7), ("CUSUM", "reuse-pd", E2, "mix", "r-df", 6, 7),
+    ("CUSUM", "reuse-pd", _C(2, 0, 2, "negative", 1, 1), "base", "r-ser", 6, 7),
+    ("CUSUM", "reuse-typed", E1, "dy32", "r-c2f32", 6, 7), ("CUSUM", "reuse-typed", E2, "base", "r-c2i64", 6, 7),
+    ("CUSUM", "reuse-typed", E3, "base", "r-ring1/2i64", 6, 7), ("CUSUM", "reuse-typed", E4, "dy32", "r-c1f32", 6, 7),
+    ("CUSUM", "reuse-mix", E2, "base", "r-mix", 7, 8), ("CUSUM", "reuse-mix", E1, "frac", "r-mix", 6, 7),
+    ("CUSUM", "reuse-scrub", E1, "base", "r-c2+nan", 6, 7), ("CUSUM", "reuse-scrub", E2, "frac", "r-ring2/3+nan", 6, 7),
+    ("CUSUM", "reuse-scrub", _C(2, 0, 2, "negative", 1, 1), "base", "r-c1+nan", 6, 7),
+    ("CUSUM", "reuse-scrub", E3, "mix", "r-ser+nan", 6, 7),
+    # Page-Hinkley keeps every observation of the epoch for to_dataframe()["change_scores"]
+    ("PageHinkley", "reuse-cell", _H("positive", 1, 0, 1), "base", "r-c2", 6, 7),
+    ("PageHinkley", "reuse-cell", _H("negative", 0, 0.5, 2), "frac", "r-c1", 5, 6),
+    ("PageHinkley", "reuse-ring", _H("positive", 1, 0, 1), "base", "r-ring2/2", 6, 7),
+    ("PageHinkley", "reuse-ring", _H("negative", 1, 0.5, 1), "mix", "r-ring1/3", 5, 6),
+    ("PageHinkley", "reuse-pd", _H("positive", 1, 0, 1), "frac", "r-ser", 5, 6),
+    ("PageHinkley", "reuse-pd", _H("negative", 0, 0.5, 2), "mix", "r-df", 5, 6),
+    ("PageHinkley", "reuse-typed", _H("positive", 1, 0, 1), "dy32", "r-c2f32", 5, 6),
+    ("PageHinkley", "reuse-typed", _H("negative", 0, 0.5, 2), "base", "r-c2i64", 5, 6),
+    ("PageHinkley", "reuse-mix", _H("positive", 1, 0, 1), "base", "r-mix", 6, 7),
+    ("PageHinkley", "reuse-scrub", _H("positive", 1, 0, 1), "base", "r-c2+nan", 5, 6),
+    ("PageHinkley", "reuse-scrub", _H("negative", 1, 0.5, 1), "frac", "r-ring2/3+nan", 5, 6),
 ]
 
 # default parameters, L = 160: CUSUM() = burn_in 30, delta .005, threshold 5, two-sided; PageHinkley() = delta .01,
@@ -923,10 +1141,56 @@ def _x_long_tasks(system, scale=None, parts=3):
     return out
 
 
+# long-reuse: the default-parameter L = 160 histories (burn-in 30) fed through re-used containers: one (1,1) cell, a
+# 7-row ring (shorter than the burn-in: the re-estimation window has been overwritten), a 50-row chunk buffer that is
+# cleared and refilled every 50 observations (longer than the burn-in: the window straddles the refill)
+LONG_REUSE_FEEDS = ["r-c2", "r-ring2/7", "r-chunk50"]
+# quick: replaced positions 3, 3 + stride, ...; thorough: every position
+LONG_REUSE_STRIDE = {"quick": {"CUSUM": 8, "PageHinkley": 16}, "thorough": {"CUSUM": 1, "PageHinkley": 2}}
+
+
+def _long_reuse_positions(system, tier):
+    L = len(LONG_DEFAULTS[system])
+    stride = LONG_REUSE_STRIDE[tier][system]
+    return list(range(3 if stride > 1 else 0, L, stride))
+
+
+def _x_long_reuse_tasks(system, feed, tier):
+    default = LONG_DEFAULTS[system]
+    L = len(default)
+    fam = "long-reuse"
+    cfg = {"id": "%s:%s:%s" % (fam, system, feed), "params": {}, "alphabet": "base", "fam": fam, "feed": feed,
+           "tol": _tol("base", L)}
+    where = _long_reuse_positions(system, tier)
+    parts = [where] if tier == "quick" else [where[i::4] for i in range(4)]
+    out = []
+    for n, part in enumerate(parts):
+        part = set(part)
+        menu = [[x for x in ALPHABET if x != default[i]] if i in part else [] for i in range(L)]
+        out.append(
+            {
+                "system": system,
+                "cfg": cfg,
+                "mode": "dev",
+                "default": default,
+                "menu": menu,
+                "menu_per_pos": True,
+                "k": 1,
+                "label": "%s|%s|%s|L%d|k1|part%d" % (system, fam, feed, L, n),
+                "cost": UNIT[system] * 3 * len(part) * L,
+                "validate_every": 37,
+            }
+        )
+    return out
+
+
 def _extension_tasks(tier):
     out = []
     for system, fam, params, alpha, feed, dq, dt in X_DFS:
         out.extend(_x_dfs_tasks(system, fam, params, alpha, feed, dq if tier == "quick" else dt))
+    for feed in LONG_REUSE_FEEDS:
+        out.extend(_x_long_reuse_tasks("CUSUM", feed, tier))
+        out.extend(_x_long_reuse_tasks("PageHinkley", feed, tier))
     out.extend(_x_long_tasks("CUSUM"))
     out.extend(_x_long_tasks("PageHinkley"))
     for scale in SCALES:
